@@ -12,24 +12,32 @@ def _nn(v):
     return np.inf if np.isnan(v) else v
 
 
-TECHNIQUE = 'Coq/mathcomp proof of CG invariants + optimality and of exact line search; exact-Q recurrences vs implementation; dense Krylov-space minimiser oracle'
+TECHNIQUE = 'Coq/mathcomp proofs: CG invariants + optimality, CR / CGNR / CGNE loops simulate CG in another inner product (hence residual- resp. error-norm optimal), GMRES least-squares lemma, exact line search; exact-Q loop models vs implementation; dense Krylov-space minimiser oracle'
 LEVEL_TEXT = ('Kernel-checked theorems (Props/C07.v, mathcomp, any real field): for the CG recurrences as written in '
               'pyamg/krylov/_cg.py (no breakdown before step k) the recursive residual is the true residual, residuals are '
               'mutually orthogonal, directions A-conjugate; the k-th iterate minimises the energy norm of the error over '
-              'x0 + span(p_0..p_{k-1}); the energy error is monotone; and the exact line-search step minimises '
-              '||u - c v||_B in any symmetric PSD form (steepest descent: B = A; minimal residual: B = I).  The same '
-              'recurrences (CG with preconditioner, steepest descent, minimal residual; CGNR/CGNE as CG on the normal '
-              'equations) evaluated exactly over Q must reproduce the implementation\'s iterates to 1e-8; for all methods '
-              '(incl. GMRES mgs/householder, FGMRES, CR, BiCGStab residual history) a dense least-squares minimiser over '
+              'x0 + span(p_0..p_{k-1}); the energy error is monotone.  The loops of _cr.py, _cgnr.py and _cgne.py (no '
+              'preconditioner, ANY schedule of recomputed/updated residuals) are proved to be the same recurrences in the '
+              'forms (B,K) = (A,A), (I,A^T A), (I,A A^T) (simulation lemmas), so their k-th iterates minimise the residual '
+              '2-norm (CR, CGNR) resp. the error 2-norm (CGNE) over the Krylov space and those norms are monotone.  GMRES: '
+              'given the Arnoldi relation with an orthonormal basis and an orthogonal triangularisation of the Hessenberg '
+              'matrix, the iterate is the residual minimiser over x0 + range(V_k) and its residual norm is the last '
+              'rotated right-hand-side entry (hypotheses = textbook invariants, not derived from the loops).  The exact '
+              'line-search step minimises ||u - c v||_B in any symmetric PSD form (steepest descent: B = A; minimal residual: '
+              'B = I).  Six loop models (CG, SD, MR, CR, CGNR, CGNE, each with left preconditioner and the code\'s '
+              'recompute schedule) evaluated exactly over Q must reproduce the implementation\'s iterates to 2^-26 / 2^-22; for all methods '
+              '(incl. GMRES mgs/householder, FGMRES, BiCGStab residual history) a dense least-squares minimiser over '
               'an orthonormal Krylov basis decides optimality, monotonicity and termination in <= n steps.')
-LEVEL_NOTE = ('Real symmetric case and unpreconditioned CG are proved; preconditioned CG, CR, CGNR, CGNE, GMRES (MGS and '
-              'Householder) and FGMRES optimality are decided by the dense oracle (GMRES lemma not proved).  "To rounding": '
+LEVEL_NOTE = ('Real case, no preconditioner: CG, CR, CGNR, CGNE optimality proved for the loops as written; GMRES optimality '
+              'proved from the Arnoldi/Givens invariants (the Arnoldi loops themselves, Householder variant and FGMRES are '
+              'decided by the dense oracle); preconditioned variants: exact-Q loop correspondence + dense oracle.  "To rounding": '
               'tolerance 1e-8 * cond on well-conditioned systems (cond <= 1e3).')
 RULE = ('HPD (cg, cr, sd, mr) and general nonsingular (gmres*, fgmres, cgnr, cgne) real/complex systems n=2..8 with cond <= 1e3, '
         'identity and SPD diagonal preconditioners, random x0, every k <= n: exact-Q model iterates vs implementation; dense '
         'minimiser over the k-dimensional (preconditioned) Krylov space; monotone norms; n-step termination.  Non-trivial: k >= 1.')
 TRUSTED = ['NumPy lstsq / QR on the oracle side']
-PARTIAL = ['preconditioned CG, CR, CGNR, CGNE, GMRES/FGMRES optimality: oracle only', 'complex case: oracle only']
+PARTIAL = ['GMRES: Arnoldi relation / orthonormality / triangularisation are hypotheses of the theorem (loops not modelled); Householder GMRES, FGMRES: oracle only',
+           'preconditioned CG/CR/CGNR/CGNE optimality: exact-Q loop models + oracle (theorems are for M = I)', 'complex case: oracle only']
 HEADER = ('From Coq Require Import ZArith List QArith.\nImport ListNotations.\n'
           'Require Import PV.Base.Ops PV.Model.CycleRun PV.Model.KrylovRec.\n')
 
@@ -103,6 +111,21 @@ def run(ctx):
                     meta.append((dict(base, solver=name, k=k, b=bq.tolist(), x0=xq.tolist()), [v.tolist() for v in its]))
                     ctx.case((name, 'model', si), True)
                     ctx.count('model:' + name)
+                # CR (HPD system), CGNR and CGNE (general system) as their loops are written, with the preconditioner
+                # (matrix entries rounded to multiples of 1/32 so that the exact rationals stay small)
+                Ahq, Agq = np.round(Ah * 32) / 32, np.round(Ag * 32) / 32
+                for mid, name, Asys in ((3, 'cr', Ahq), (4, 'cgnr', Agq), (5, 'cgne', Agq)):
+                    if np.linalg.cond(Asys) >= 30 or (name == 'cr' and np.min(np.linalg.eigvalsh(Ahq)) <= 0):
+                        continue
+                    k = min(n, 3)
+                    its = iterates_of(getattr(krylov, name), Asys, bq, xq, k, Md)
+                    if len(its) != k:
+                        continue
+                    cases.append('(%d%%nat, %s, %s, %s, %s, %s, %s)' % (
+                        mid, qmat(Asys), qmat(Mi), cq.ql(bq), cq.ql(xq), cq.q(2.0 ** -22), cq.lst([cq.ql(v) for v in its])))
+                    meta.append((dict(base, solver=name, k=k, b=bq.tolist(), x0=xq.tolist()), [v.tolist() for v in its]))
+                    ctx.case((name, 'model', si), True)
+                    ctx.count('model:' + name + '-loop')
                 # CGNR is CG on the normal equations (unpreconditioned)
                 if np.linalg.cond(Ag) < 30:
                     its = iterates_of(krylov.cgnr, Ag, bq, xq, min(n, 2))
@@ -202,7 +225,33 @@ def run(ctx):
                         kappa = np.linalg.cond(A) ** (2 if name in ('cgnr', 'cgne') else 1)
                         if _nn(np.linalg.norm(xs - xk)) > 1e-5 * np.linalg.cond(A) * (1 + np.linalg.norm(xs)):
                             ctx.fail(name + '/not-solved-in-n-steps', '|x_n - x*| = %.3g' % np.linalg.norm(xs - xk), case)
-    ctx.corr_relations = ['pyamg.krylov.{cg, steepest_descent, minimal_residual} iterates == KrylovRec recurrences over Q (1e-8)',
+    # ---------- small dyadic systems for the six recurrence models (cheap exact rationals, many systems)
+    rq = ctx.sub('dyadic')
+    for t in range(20 if not ctx.thorough else 120):
+        n = rq.choice([2, 3, 3, 4])
+        Gm = np.array([[rq.choice([-1, -0.5, 0, 0, 0.5, 1]) for _ in range(n)] for _ in range(n)])
+        Ahq = Gm @ Gm.T + np.eye(n) * rq.choice([1, 2])
+        Agq = Gm + np.eye(n) * rq.choice([2, 3])
+        if np.linalg.cond(Agq) > 30:
+            continue
+        bq = np.array([rq.choice([-1, -0.5, 0.25, 0.5, 1, 2]) for _ in range(n)])
+        xq = np.array([rq.choice([-1, 0, 0.5, 1]) for _ in range(n)])
+        Md = np.diag([rq.choice([0.5, 1.0, 2.0]) for _ in range(n)]) if t % 2 else None
+        Mi = Md if Md is not None else np.eye(n)
+        for mid, name, Asys in ((0, 'cg', Ahq), (1, 'steepest_descent', Ahq), (2, 'minimal_residual', Ahq),
+                                (3, 'cr', Ahq), (4, 'cgnr', Agq), (5, 'cgne', Agq)):
+            k = min(n, 3)
+            its = iterates_of(getattr(krylov, name), Asys, bq, xq, k, Md)
+            if len(its) != k:
+                continue
+            base = dict(n=n, A=Asys.tolist(), M=None if Md is None else np.diag(Md).tolist())
+            ctx.mark(dict(base, solver=name))
+            cases.append('(%d%%nat, %s, %s, %s, %s, %s, %s)' % (
+                mid, qmat(Asys), qmat(Mi), cq.ql(bq), cq.ql(xq), cq.q(2.0 ** -26), cq.lst([cq.ql(v) for v in its])))
+            meta.append((dict(base, solver=name, k=k, b=bq.tolist(), x0=xq.tolist()), [v.tolist() for v in its]))
+            ctx.case((name, 'dyadic-model', t), True)
+            ctx.count('model:' + name + '-dyadic')
+    ctx.corr_relations = ['pyamg.krylov.{cg, steepest_descent, minimal_residual, cr, cgnr, cgne} iterates == KrylovRec loops over Q (2^-26 / 2^-22)',
                           'pyamg.krylov.cgnr iterates == KrylovRec.cg on the normal equations (1e-7)']
     bad, errs = cq.run_cases('c07', HEADER, 'caseT', 'chk', cases, shard=40)
     for e in errs:
